@@ -146,7 +146,10 @@ let () =
         st := s';
         let calls = o.M.o_calls in
         let herr = match List.rev calls with [] -> "0" | e :: _ -> sz e in
-        Printf.printf "R %s %d %s %d | S %s\n" (sz o.M.o_ret) (List.length calls) herr (if o.M.o_thrown then 1 else 0) (snap !fl s')
+        let fp = M.footprint_of !fl c in
+        let bit x = if x then "1" else "0" in
+        Printf.printf "R %s %d %s %d | S %s | F %s%s%s%s%s%s%s\n" (sz o.M.o_ret) (List.length calls) herr (if o.M.o_thrown then 1 else 0) (snap !fl s')
+          (bit fp.M.fp_sizes) (bit fp.M.fp_cur) (bit fp.M.fp_labels) (bit fp.M.fp_fixups) (bit fp.M.fp_relocs) (bit fp.M.fp_addrs) (bit fp.M.fp_nodes)
       end
       else print_endline "?"
     done
